@@ -95,7 +95,9 @@ Record sys := mkSys {
   joins : map (aid * jstate);
   reg : map aid;                 (* service registry: type -> registered instance *)
   rlock : bool;                  (* the registry's write lock is held across an await (debug-build ping) *)
-  rpend : nat                    (* registry operations begun and not yet returned *)
+  rpend : nat;                   (* registry operations begun and not yet returned *)
+  alist : list aid;              (* every actor ever created (domain of [actors]) *)
+  pending : list oid             (* client operations begun and not yet returned *)
 }.
 
 (** explicit setters (generated by tools/gen_setters.py, pasted) *)
@@ -127,14 +129,16 @@ Definition set_op_htx v (r : op) : op := {| op_k := op_k r; op_a := op_a r; op_i
 Definition set_op_hftx v (r : op) : op := {| op_k := op_k r; op_a := op_a r; op_imm := op_imm r; op_slot := op_slot r; op_done := op_done r; op_w := op_w r; op_htx := op_htx r; op_hftx := v; op_timer := op_timer r; op_reg := op_reg r |}.
 Definition set_op_timer v (r : op) : op := {| op_k := op_k r; op_a := op_a r; op_imm := op_imm r; op_slot := op_slot r; op_done := op_done r; op_w := op_w r; op_htx := op_htx r; op_hftx := op_hftx r; op_timer := v; op_reg := op_reg r |}.
 Definition set_op_reg v (r : op) : op := {| op_k := op_k r; op_a := op_a r; op_imm := op_imm r; op_slot := op_slot r; op_done := op_done r; op_w := op_w r; op_htx := op_htx r; op_hftx := op_hftx r; op_timer := op_timer r; op_reg := v |}.
-Definition set_actors v (r : sys) : sys := {| actors := v; handles := handles r; ops := ops r; now := now r; joins := joins r; reg := reg r; rlock := rlock r; rpend := rpend r |}.
-Definition set_handles v (r : sys) : sys := {| actors := actors r; handles := v; ops := ops r; now := now r; joins := joins r; reg := reg r; rlock := rlock r; rpend := rpend r |}.
-Definition set_ops v (r : sys) : sys := {| actors := actors r; handles := handles r; ops := v; now := now r; joins := joins r; reg := reg r; rlock := rlock r; rpend := rpend r |}.
-Definition set_now v (r : sys) : sys := {| actors := actors r; handles := handles r; ops := ops r; now := v; joins := joins r; reg := reg r; rlock := rlock r; rpend := rpend r |}.
-Definition set_joins v (r : sys) : sys := {| actors := actors r; handles := handles r; ops := ops r; now := now r; joins := v; reg := reg r; rlock := rlock r; rpend := rpend r |}.
-Definition set_reg v (r : sys) : sys := {| actors := actors r; handles := handles r; ops := ops r; now := now r; joins := joins r; reg := v; rlock := rlock r; rpend := rpend r |}.
-Definition set_rlock v (r : sys) : sys := {| actors := actors r; handles := handles r; ops := ops r; now := now r; joins := joins r; reg := reg r; rlock := v; rpend := rpend r |}.
-Definition set_rpend v (r : sys) : sys := {| actors := actors r; handles := handles r; ops := ops r; now := now r; joins := joins r; reg := reg r; rlock := rlock r; rpend := v |}.
+Definition set_actors v (r : sys) : sys := {| actors := v; handles := handles r; ops := ops r; now := now r; joins := joins r; reg := reg r; rlock := rlock r; rpend := rpend r; alist := alist r; pending := pending r |}.
+Definition set_handles v (r : sys) : sys := {| actors := actors r; handles := v; ops := ops r; now := now r; joins := joins r; reg := reg r; rlock := rlock r; rpend := rpend r; alist := alist r; pending := pending r |}.
+Definition set_ops v (r : sys) : sys := {| actors := actors r; handles := handles r; ops := v; now := now r; joins := joins r; reg := reg r; rlock := rlock r; rpend := rpend r; alist := alist r; pending := pending r |}.
+Definition set_now v (r : sys) : sys := {| actors := actors r; handles := handles r; ops := ops r; now := v; joins := joins r; reg := reg r; rlock := rlock r; rpend := rpend r; alist := alist r; pending := pending r |}.
+Definition set_joins v (r : sys) : sys := {| actors := actors r; handles := handles r; ops := ops r; now := now r; joins := v; reg := reg r; rlock := rlock r; rpend := rpend r; alist := alist r; pending := pending r |}.
+Definition set_reg v (r : sys) : sys := {| actors := actors r; handles := handles r; ops := ops r; now := now r; joins := joins r; reg := v; rlock := rlock r; rpend := rpend r; alist := alist r; pending := pending r |}.
+Definition set_rlock v (r : sys) : sys := {| actors := actors r; handles := handles r; ops := ops r; now := now r; joins := joins r; reg := reg r; rlock := v; rpend := rpend r; alist := alist r; pending := pending r |}.
+Definition set_rpend v (r : sys) : sys := {| actors := actors r; handles := handles r; ops := ops r; now := now r; joins := joins r; reg := reg r; rlock := rlock r; rpend := v; alist := alist r; pending := pending r |}.
+Definition set_alist v (r : sys) : sys := {| actors := actors r; handles := handles r; ops := ops r; now := now r; joins := joins r; reg := reg r; rlock := rlock r; rpend := rpend r; alist := v; pending := pending r |}.
+Definition set_pending v (r : sys) : sys := {| actors := actors r; handles := handles r; ops := ops r; now := now r; joins := joins r; reg := reg r; rlock := rlock r; rpend := rpend r; alist := alist r; pending := v |}.
 
 Notation a_queue x := (m_queue (a_mb x)).
 Notation a_parked x := (m_parked (a_mb x)).
@@ -145,7 +149,7 @@ Definition del {A} (m : map A) (k : nat) : map A :=
 
 Definition init : sys :=
   {| actors := empty; handles := empty; ops := empty; now := 0; joins := empty; reg := empty;
-     rlock := false; rpend := 0 |}.
+     rlock := false; rpend := 0; alist := []; pending := [] |}.
 
 Definition get_actor (s : sys) (a : aid) (why : nat) : res actor :=
   match actors s a with Some x => Acc x | None => Rej why end.
@@ -153,6 +157,10 @@ Definition put_actor (s : sys) (a : aid) (x : actor) : sys := set_actors (upd (a
 Definition get_op (s : sys) (o : oid) (why : nat) : res op :=
   match ops s o with Some x => Acc x | None => Rej why end.
 Definition put_op (s : sys) (o : oid) (x : op) : sys := set_ops (upd (ops s) o x) s.
+(** bookkeeping of the two enumerations used by the progress check *)
+Definition add_pend (o : oid) (s : sys) : sys := set_pending (o :: pending s) s.
+Definition del_pend (o : oid) (s : sys) : sys := set_pending (remove1 o (pending s)) s.
+Definition add_actor (a : aid) (s : sys) : sys := set_alist (a :: alist s) s.
 
 (** * The mailbox: futures-channel mpsc as hannibal uses it (src/channel.rs)
 
@@ -264,16 +272,16 @@ Definition submit (s : sys) (a : aid) (o : oid) (p : payload) (wpath weak : bool
   x <- get_actor s a 501 ;;
   let base := set_op_timer tm (new_op k a) in
   if weak && negb (upgradable x) then
-    Acc (put_op s o (set_op_imm (Some (RErr EAlreadyStopped)) base))
+    Acc (add_pend o (put_op s o (set_op_imm (Some (RErr EAlreadyStopped)) base)))
   else if negb (a_rx x) then
-    Acc (put_op s o (set_op_imm (Some (RErr ESend)) base))
+    Acc (add_pend o (put_op s o (set_op_imm (Some (RErr ESend)) base)))
   else
     let x1 := enq wpath p x in
     let x2 := add_refs htx hftx x1 in
     let x3 := if wpath then set_a_inflight (S (a_inflight x2)) x2 else x2 in
-    Acc (put_actor
+    Acc (add_pend o (put_actor
            (put_op s o (set_op_hftx hftx (set_op_htx htx (set_op_w wpath (set_op_slot sl base)))))
-           a x3).
+           a x3)).
 
 (** what a pending operation may return right now ([None]: it cannot return yet) *)
 Definition ret_expect (p : op) (x : actor) (o : oid) : option rval :=
@@ -373,7 +381,7 @@ Definition release_entry (s : sys) (ty : nat) : res sys :=
 
 Definition reg_ret (s : sys) (o : oid) (p : op) (k : regk) (ty : nat) (r : rval) : res sys :=
   check negb (op_done p) else 3320 ;;
-  let s0 := set_rpend (pred (rpend s)) (put_op s o (set_op_done true p)) in
+  let s0 := del_pend o (set_rpend (pred (rpend s)) (put_op s o (set_op_done true p))) in
   match k with
   | RgFrom | RgSetup =>
       let expect := match k with RgFrom => RInst (reg s ty) | _ => ROk end in
@@ -427,6 +435,59 @@ Definition fresh_actor (c : spawn_cfg) (refs : nat) : actor :=
      a_exit := None; a_next := 0; a_sended := false; a_task := THeld; a_bcur := 0;
      a_sleep := None |}.
 
+(** * Progress, checked where the executor had nothing left to run
+
+    The harness's executor advances its clock only when no task is runnable, and stops only when
+    in addition no sleep is pending. At those two kinds of events the model must not have any
+    step left that the code would have taken by itself: a loop sitting on a non-empty or closed
+    mailbox, an operation whose result is available, a timer or a handler deadline that is due.
+    This is how "never hangs" is tied to real wake-ups. [n]: the time the clock moves to
+    ([None]: final quiescence). *)
+Definition due (t : nat) (n : option nat) : bool :=
+  match n with Some n => t <? n | None => true end.
+Definition timer_stable (n : option nat) (t : timer) : bool :=
+  t_aborted t ||
+  match t_st t with
+  | TsSleeping u => negb (due u n)
+  | TsNew | TsEnding => false      (* about to arm its sleep / to end: runnable *)
+  | TsParked _ | TsEnded => true
+  end.
+Definition actor_stable (n : option nat) (x : actor) : bool :=
+  match a_phase x with
+  | PhDone => true
+  | PhIdle =>
+      match a_queue x with
+      | [] => negb (closed x) || sc_stream (a_cfg x) && false
+      | _ :: _ => false
+      end
+      && forallb (timer_stable n) (a_timers x)
+  | PhHandle _ dl =>
+      match dl with Some d => negb (due d n) | None => true end
+      && match a_sleep x with Some t => negb (due t n) | None => true end
+      && forallb (timer_stable n) (a_timers x)
+  | PhCb _ _ | PhItem _ =>
+      match a_sleep x with Some t => negb (due t n) | None => true end
+      && forallb (timer_stable n) (a_timers x)
+  | _ => false                      (* a phase the loop passes through within one step *)
+  end.
+Definition op_stable (s : sys) (o : oid) : bool :=
+  match ops s o with
+  | Some p =>
+      op_done p ||
+      match op_reg p with
+      | Some _ => rlock s          (* a registry operation only waits for the lock *)
+      | None =>
+          match actors s (op_a p) with
+          | Some x => match ret_expect p x o with None => true | Some _ => false end
+          | None => true
+          end
+      end
+  | None => true
+  end.
+Definition stable (s : sys) (n : option nat) : bool :=
+  forallb (fun a => match actors s a with Some x => actor_stable n x | None => true end) (alist s)
+  && forallb (op_stable s) (pending s).
+
 Definition step (s : sys) (e : event) : res sys :=
   match e with
   | EvSpawn a c =>
@@ -437,18 +498,18 @@ Definition step (s : sys) (e : event) : res sys :=
         check negb (rlock s) else 102 ;;
         check (match live_entry s (sc_ty c) with None => true | Some _ => false end) else 103 ;;
         s1 <- release_entry s (sc_ty c) ;;
-        Acc (set_rlock true (set_reg (upd (reg s1) (sc_ty c) a) (put_actor s1 a (fresh_actor c 1))))
-      else Acc (put_actor s a (fresh_actor c 0))
+        Acc (add_actor a (set_rlock true (set_reg (upd (reg s1) (sc_ty c) a) (put_actor s1 a (fresh_actor c 1)))))
+      else Acc (add_actor a (put_actor s a (fresh_actor c 0)))
   | EvForeign a =>
       check (match actors s a with None => true | Some _ => false end) else 2001 ;;
-      Acc (put_actor s a
+      Acc (add_actor a (put_actor s a
              {| a_cfg := {| sc_bound := None; sc_timeout := None; sc_failto := false;
                             sc_strat := RestartOnly; sc_stream := false; sc_entry := 6; sc_ty := 9 |};
                 a_mb := mkMbox None [] [] true; a_phase := PhIdle;
                 a_state := []; a_inc := 1; a_tx := 1; a_ftx := 1; a_inflight := 0;
                 a_notif := NArmed; a_timers := []; a_children := []; a_crashing := false;
                 a_exit := None; a_next := 0; a_sended := false; a_task := THGone; a_bcur := 0;
-                a_sleep := None |})
+                a_sleep := None |}))
   | EvHandle h a k =>
       check (match handles s h with None => true | Some _ => false end) else 201 ;;
       x <- get_actor s a 202 ;;
@@ -474,17 +535,17 @@ Definition step (s : sys) (e : event) : res sys :=
               x <- get_actor s a 504 ;;
               match a_task x with
               | THeld =>
-                  Acc (put_actor (set_joins (upd (joins s) h (a, JTaken)) (put_op s o (new_op XJoin a)))
-                                 a (set_a_task THTaken x))
-              | _ => Acc (put_op s o (set_op_imm (Some RNone) (new_op XJoin a)))
+                  Acc (add_pend o (put_actor (set_joins (upd (joins s) h (a, JTaken)) (put_op s o (new_op XJoin a)))
+                                 a (set_a_task THTaken x)))
+              | _ => Acc (add_pend o (put_op s o (set_op_imm (Some RNone) (new_op XJoin a))))
               end
           end
-      | OPublish | OUnsubscribe => Acc (put_op s o (new_op XOther 0))
+      | OPublish | OUnsubscribe => Acc (put_op s o (set_op_done true (new_op XOther 0)))
       | _ =>
           match handles s h with
           | None => Rej 505
           | Some (a, hk) =>
-              let skip := Acc (put_op s o (set_op_imm (Some RSkip) (new_op XOther a))) in
+              let skip := Acc (add_pend o (put_op s o (set_op_imm (Some RSkip) (new_op XOther a)))) in
               match k, hk with
               | OSend, (KAddr | KOwning | KSender) => submit s a o (PTask o) true false XSend SNone 0 0 None
               | OSend, KWSender => submit s a o (PTask o) true true XSend SNone 1 1 None
@@ -498,10 +559,10 @@ Definition step (s : sys) (e : event) : res sys :=
               | ORestart, KAddr => submit s a o (PRestart o) false false XRestart SNone 0 0 None
               | OHalt, KAddr => submit s a o (PStop o) false false XHalt SNone 0 0 None
               | OHalt, KWAddr => submit s a o (PStop o) false true XHalt SNone 1 1 None
-              | (OAwait | OAwaitRef), KAddr => Acc (put_op s o (new_op XAwait a))
+              | (OAwait | OAwaitRef), KAddr => Acc (add_pend o (put_op s o (new_op XAwait a)))
               | OConsume, KOwning =>
                   x <- get_actor s a 506 ;;
-                  if negb (a_rx x) then Acc (put_op s o (set_op_imm (Some (RErr ESend)) (new_op XConsume a)))
+                  if negb (a_rx x) then Acc (add_pend o (put_op s o (set_op_imm (Some (RErr ESend)) (new_op XConsume a))))
                   else
                     s1 <- submit s a o (PStop o) false false XConsume SNone 0 0 None ;;
                     x1 <- get_actor s1 a 507 ;;
@@ -529,7 +590,7 @@ Definition step (s : sys) (e : event) : res sys :=
           check (op_htx p <=? a_tx x) && (op_hftx p <=? a_ftx x) else 606 ;;
           let x1 := sub_refs (op_htx p) (op_hftx p) x in
           let x2 := if op_w p then set_a_inflight (pred (a_inflight x1)) x1 else x1 in
-          Acc (put_actor (put_op s o (set_op_done true p)) (op_a p) x2)
+          Acc (del_pend o (put_actor (put_op s o (set_op_done true p)) (op_a p) x2))
       end
       end
   | EvDeq a pk =>
@@ -677,8 +738,11 @@ Definition step (s : sys) (e : event) : res sys :=
       Acc (put_actor s a (set_a_crashing true x))
   | EvClock n =>
       check now s <? n else 1501 ;;
+      check stable s (Some n) else 1502 ;;
       Acc (set_now n s)
-  | EvQuiesce => Acc s
+  | EvQuiesce =>
+      check stable s None else 1601 ;;
+      Acc s
   | EvBudget => Acc s
   | EvClientEnd _ _ => Acc s
   | EvCtx a restart ok o =>
@@ -862,10 +926,10 @@ Definition step (s : sys) (e : event) : res sys :=
       | RgRegister | RgReplace =>
           match handles s h with
           | Some (b, KAddr) =>
-              Acc (set_rpend (S (rpend s)) (put_op s o (set_op_reg (Some (k, ty)) (new_op XReg b))))
+              Acc (add_pend o (set_rpend (S (rpend s)) (put_op s o (set_op_reg (Some (k, ty)) (new_op XReg b)))))
           | _ => Rej 3302
           end
-      | _ => Acc (set_rpend (S (rpend s)) (put_op s o (set_op_reg (Some (k, ty)) (new_op XReg 0))))
+      | _ => Acc (add_pend o (set_rpend (S (rpend s)) (put_op s o (set_op_reg (Some (k, ty)) (new_op XReg 0)))))
       end
   | EvProbe a o =>
       (* the registry lookup that just spawned [a] pings it while it still holds the lock *)
